@@ -81,3 +81,45 @@ theorem validUtf8_cut_left (M : Bytes) (a : UInt8) (R : Bytes) (ha : a < 128)
   obtain ⟨cs, hcs⟩ := (isValid_iff_encL _).mp h
   obtain ⟨cs1, hcs1⟩ := encL_cut cs M a R ha hcs
   exact (isValid_iff_encL _).mpr ⟨cs1, hcs1⟩
+
+/-- the suffix after an ASCII byte of a valid UTF-8 string is valid -/
+theorem validUtf8_cut_right (M : Bytes) (a : UInt8) (R : Bytes) (ha : a < 128)
+    (h : validUtf8 (M ++ a :: R) = true) : validUtf8 R = true := by
+  have hM := validUtf8_cut_left M a R ha h
+  unfold validUtf8 at h hM ⊢
+  rw [ByteArray.validateUTF8_eq_true_iff] at h hM ⊢
+  obtain ⟨cs, hcs⟩ := (isValid_iff_encL _).mp h
+  obtain ⟨cs1, hcs1⟩ := (isValid_iff_encL _).mp hM
+  -- cs1 is a prefix of cs (uniqueness of decoding), so the rest of cs spells `a :: R`
+  have hpre : cs1 <+: cs := by
+    apply List.isPrefix_of_utf8Encode_append_eq_utf8Encode (ByteArray.mk (a :: R).toArray)
+    apply ByteArray.ext
+    have e1 : cs1.utf8Encode.data = (encL cs1).toArray := by simp [List.utf8Encode, encL]
+    have e2 : cs.utf8Encode.data = (encL cs).toArray := by simp [List.utf8Encode, encL]
+    simp only [ByteArray.data_append, e1, e2, hcs1, hcs]
+    simp
+  obtain ⟨cs2, rfl⟩ := hpre
+  have hsplit : encL (cs1 ++ cs2) = encL cs1 ++ encL cs2 := by simp [encL]
+  rw [hsplit, hcs1] at hcs
+  have h2 : encL cs2 = a :: R := List.append_cancel_left hcs
+  -- peel the ASCII byte
+  have hv : (ByteArray.mk (a :: R).toArray).IsValidUTF8 := (isValid_iff_encL _).mpr ⟨cs2, h2⟩
+  exact (isValidUTF8_ascii_cons_iff a ha R).mp hv
+
+/-- C06 (string slicing): wherever the crate slices a `&str` at the position of an ASCII delimiter it has just
+    found with `find` — `&s[..i]` and `&s[i + 1..]` in request.rs, response.rs, chunked_body.rs and coding.rs — both
+    parts are valid UTF-8, i.e. `i` and `i + 1` are character boundaries and the slice cannot trap -/
+theorem C06_slice_at_ascii_delimiter (s : Bytes) (a : UInt8) (i : Nat) (ha : a < 128)
+    (hs : validUtf8 s = true) (hf : s.idxOf? a = some i) :
+    validUtf8 (s.take i) = true ∧ validUtf8 (s.drop (i + 1)) = true := by
+  have hsplit : s = s.take i ++ a :: s.drop (i + 1) := by
+    have hi : i < s.length := by
+      have := List.idxOf?_eq_some_iff.mp hf
+      obtain ⟨hlt, _⟩ := this; exact hlt
+    have hget : s[i] = a := by
+      have := List.idxOf?_eq_some_iff.mp hf
+      exact this.2.1
+    rw [← hget]
+    exact (List.take_append_drop i s).symm.trans (by rw [List.drop_eq_getElem_cons hi])
+  rw [hsplit] at hs
+  exact ⟨validUtf8_cut_left _ a _ ha hs, validUtf8_cut_right _ a _ ha hs⟩
